@@ -295,6 +295,12 @@ func (s *Server) serveOne(ctx context.Context, r io.Reader, w io.Writer, shmConn
 			}
 			s.logIPCWriteErr("error-response", req.Method,
 				writeErrorResponse(w, errSchema, pverr, s.serverID, req.RequestID, s.debugErrors))
+			if methodTypeString(info.Type) == DispatchMethodStream {
+				// A stream client has already written its input stream (it
+				// writes before it reads): consume it, or the next request is
+				// framed against the leftover ticks.
+				drainInputStream(r)
+			}
 			return nil
 		}
 	}
